@@ -58,7 +58,7 @@ EXTRA_TREES = {
     "link": {"a.txt": "a", "d/x.bin": "x", "d/l.txt": ("link", "../a.txt"), "top.lnk": ("link", "d/x.bin")},
     # a sub-folder that is called like the root folder itself (the worlds' root folder is always named "t")
     "selfname": {"t/t/x.bin": "x", "t/y.bin": "y", "z.bin": "z", "u/t/": ""},
-    "dash": {"-n": "looks like an option", "--help/-v": "1", "#c": "2", "!neg": "3", " lead": "4", "trail ": "5"},
+    "dash": {"-n": "looks like an option", "--help/-v": "1", "#c": "2", "!neg": "3", " lead": "4", "trail ": "5", "%s{0}%(x)d": "6"},
 }
 EXTRA_NESTED = {
     "dups": [[], ["d"], ["d", "e"]],
@@ -658,8 +658,10 @@ def part_mutations(run, fsets):
             else:
                 modes = [["other", "same"][k % 2]]
             for nmode in modes:
-                if thorough or (tree == "deep" and ni == 0):
+                if tree == "deep" and ni == 0:
                     sets = list(range(len(fsets)))
+                elif thorough:
+                    sets = [k, k + 7]
                 else:
                     sets = [k]
                 k += 1
@@ -672,7 +674,7 @@ def part_mutations(run, fsets):
                     if w is None:
                         continue
                     if thorough:
-                        level = "full" if (fi < 6 or tree in ("deep", "flat")) else "std"
+                        level = "full" if si == 0 else ("std" if tree == "deep" else "probe")
                     else:
                         level = "std" if ((tree, ni) in QUICK_STD and si == 0) else "probe"
                     check_world(run, w, {"tree": tree, "nested": nested, "nested_mode": nmode, "recipe": "one", "formats": F1}, level)
@@ -691,7 +693,7 @@ def part_histories(run, fsets):
         if ign:
             targets = [("ign", 0, "full" if thorough else "probe"), ("ign", 1, "full" if thorough else ("std" if recipe == "ign" else "probe"))]
         elif thorough:
-            targets = [(t, ni, "full" if t in ("flat", "deep", "levels") else "std") for t in TREES if t not in ("ign", "big") for ni in range(len(NESTED[t]))]
+            targets = [(t, ni, "full" if (t, ni) in (("flat", 0), ("deep", 3), ("levels", 1)) else "probe") for t in TREES if t not in ("ign", "big") for ni in range(len(NESTED[t]))]
         else:
             t2, n2 = rotate[ri % len(rotate)]
             targets = [("flat", 0, "std"), ("deep", 3, "std" if recipe in key else "probe"), (t2, n2, "probe")]
@@ -700,7 +702,7 @@ def part_histories(run, fsets):
             if not nested:
                 modes = ["same"]
             elif thorough:
-                modes = NMODES
+                modes = NMODES if (tree, ni) == ("deep", 3) else [NMODES[k % 5], NMODES[(k + 2) % 5]]
             else:
                 modes = [NMODES[k % 5]]
             for nmode in modes:
@@ -744,7 +746,7 @@ def part_spellings(run, fsets):
                     run,
                     w,
                     {"tree": tree, "nested": nested, "nested_mode": nmode, "recipe": recipe, "formats": F1},
-                    "std" if thorough and tree in ("deep", "flat") else "probe",
+                    "probe",
                     combos=combos,
                 )
         # the history itself written through an unusual spelling of the root
@@ -991,7 +993,7 @@ def random_world(rnd):
 
 def part_random(run, fsets):
     """F: seeded random trees / placements / recipes beyond the fixed pool"""
-    n = 6 if run.tier == "quick" else 250
+    n = 6 if run.tier == "quick" else 120
     plain = [r for r in RECIPES if not r.startswith("ign") and r != "neg-later"]
     for i in range(n):
         rnd = random.Random(f"{run.seed}/{i}")
@@ -1022,7 +1024,7 @@ def main():
         "U+2028, option-like names, a sub-folder named like the root, duplicates, file symlinks, files of 2^20-1/2^20/2^20+1 bytes), <= 3 nested histories up to 3 deep, "
         "17 history recipes (1-12 generations; -n, -sf, differing format sets, failed generation, repeated -h, -i/-ii patterns, "
         "negation added later), 5 format sets quick / 22 thorough, 7 root spellings, -v / -h, 2-5 time zones with mtimes around DST "
-        "switches, a crash at 8 (quick) / every (thorough) file-system event of a second create, 6 (quick) / 250 (thorough) seeded random worlds; quick runs the basic mutation kinds on 15 worlds and a probe subset (root-level, deepest, one per nested history, one per class) elsewhere",
+        "switches, a crash at 8 (quick) / every (thorough) file-system event of a second create, 6 (quick) / 120 (thorough) seeded random worlds; quick runs the basic mutation kinds on 15 worlds and a probe subset (root-level, deepest, one per nested history, one per class) elsewhere",
     )
     fsets = S.format_sets(run.tier)
     for part in (part_mutations, part_histories, part_spellings, part_special, part_crash, part_random):
